@@ -19,9 +19,13 @@ ASSUMPTIONS = ['citation resolution is observed through Proof.find_item; if the 
                'reference yield of assume / implies_intr / implies_elim / identity substitution computed on shadows',
                'propositional validity by truth table (vf.holmodel)']
 REQUIRED = {'quick': {'exhaustive_two_items_three_ids_parts_done': 3, 'hist_rechecks': 800, 'hist_recheck:True/fresh:True': 200, 'accepted': 500, 'rejected': 500, 'L1_citations_checked': 300, 'L2_yields_checked': 300,
-                      'ext_cases': 100, 'ext_admitted_as_proved': 5, 'gaps_reports_checked': 100, 'exhaustive_nested_done': 1},
+                      'ext_cases': 100, 'ext_admitted_as_proved': 5, 'gaps_reports_checked': 100, 'exhaustive_nested_done': 1, 'stated_family_done': 1, 'stated_family_cases': 800,
+                      'L6_item_yields_checked:variable': 100, 'L6_items_with_stated_sequent:variable': 20, 'L6_items_with_stated_sequent:subproof': 10,
+                      'L6_items_with_stated_sequent:theorem': 10, 'stated_ext_cases': 50},
             'thorough': {'exhaustive_two_items_three_ids_parts_done': 3, 'hist_rechecks': 30000, 'hist_recheck:True/fresh:True': 8000, 'accepted': 5000, 'rejected': 5000, 'L1_citations_checked': 3000, 'L2_yields_checked': 3000,
-                         'ext_cases': 1000, 'ext_admitted_as_proved': 50, 'gaps_reports_checked': 1000, 'exhaustive_nested_done': 1}}
+                         'ext_cases': 1000, 'ext_admitted_as_proved': 50, 'gaps_reports_checked': 1000, 'exhaustive_nested_done': 1, 'stated_family_done': 1, 'stated_family_cases': 800,
+                         'L6_item_yields_checked:variable': 100, 'L6_items_with_stated_sequent:variable': 20, 'L6_items_with_stated_sequent:subproof': 10,
+                         'L6_items_with_stated_sequent:theorem': 10, 'stated_ext_cases': 50}}
 SHARD_TIMEOUT = {'quick': 600, 'thorough': 7200}
 
 BOOL = S.BOOL
@@ -41,16 +45,33 @@ CLAIMS = {'|-B': ((), 'B'), 'A|-B': (('A',), 'B'), 'A,A->B|-B': (('A', 'A->B'), 
           'A|-A': (('A',), 'A'), '|-false': ((), 'false'), 'A->B|-A->B': (('A->B',), 'A->B'), '|-A': ((), 'A'),
           'B,A|-A': (('B', 'A'), 'A')}
 
+# extra statements used only by the directed 'stated' family (kept out of CLAIMS so the random workloads are unchanged)
+BB = S.funs(BOOL, BOOL)
+Fv = ('var', 'f', BB)
+TRUE = ('const', 'true', BOOL)
+
+
+def var_decl(v):
+    """the declaration proposition _VAR(v) on shadows, built without Thm.mk_VAR"""
+    return S.mk_comb(('const', '_VAR', S.funs(v[2], BOOL)), v)
+
+
+VARS = {'A': A, 'B': Bv, 'f': Fv}
+FORM_X = {'_VAR A': var_decl(A), '_VAR B': var_decl(Bv), '_VAR f': var_decl(Fv), 'true': TRUE}
+CLAIMS_X = {'|-_VAR A': ((), '_VAR A'), '|-_VAR B': ((), '_VAR B'), '|-_VAR f': ((), '_VAR f'), 'A|-_VAR A': (('A',), '_VAR A'),
+            'A|-_VAR B': (('A',), '_VAR B'), '|-true': ((), 'true'), 'A|-true': (('A',), 'true'), 'B|-B': (('B',), 'B'),
+            'A,B|-B': (('A', 'B'), 'B')}
+
 
 def shards(tier, seed):
     if tier == 'quick':
-        return ([{'kind': 'exh', 'n': 1, 'part': 0, 'parts': 1}, {'kind': 'exh', 'n': 2, 'part': 0, 'parts': 1}, {'kind': 'nested'}] +
+        return ([{'kind': 'exh', 'n': 1, 'part': 0, 'parts': 1}, {'kind': 'exh', 'n': 2, 'part': 0, 'parts': 1}, {'kind': 'nested'}, {'kind': 'stated'}] +
                 [{'kind': 'exh2w', 'part': p_, 'parts': 3} for p_ in range(3)] +
                 [{'kind': 'exh3_sample', 'count': 2500, 'i': i} for i in range(6)] +
                 [{'kind': 'random', 'count': 700, 'i': i} for i in range(6)] +
                 [{'kind': 'ext', 'count': 400, 'i': i} for i in range(2)] +
                 [{'kind': 'hist', 'count': 1500, 'i': i} for i in range(2)])
-    return ([{'kind': 'exh', 'n': 1, 'part': 0, 'parts': 1}, {'kind': 'exh', 'n': 2, 'part': 0, 'parts': 1}, {'kind': 'nested'}] +
+    return ([{'kind': 'exh', 'n': 1, 'part': 0, 'parts': 1}, {'kind': 'exh', 'n': 2, 'part': 0, 'parts': 1}, {'kind': 'nested'}, {'kind': 'stated'}] +
             [{'kind': 'exh2w', 'part': p_, 'parts': 3} for p_ in range(3)] +
             [{'kind': 'exh', 'n': 3, 'part': p, 'parts': 32} for p in range(32)] +
             [{'kind': 'random', 'count': 15000, 'i': i} for i in range(12)] +
@@ -61,8 +82,9 @@ def shards(tier, seed):
 # ------------------------------------------------------------------ building proofs from specs
 def mk_thm(claim):
     from kernel.thm import Thm
-    hy, pr = CLAIMS[claim]
-    return Thm(S.to_repo_term(FORM[pr]), *[S.to_repo_term(FORM[h]) for h in hy])
+    hy, pr = CLAIMS[claim] if claim in CLAIMS else CLAIMS_X[claim]
+    form = lambda n: FORM[n] if n in FORM else FORM_X[n]
+    return Thm(S.to_repo_term(form(pr)), *[S.to_repo_term(form(h)) for h in hy])
 
 
 def mk_item(sp):
@@ -78,6 +100,9 @@ def mk_item(sp):
         args = S.to_repo_term(FORM[sp['arg']])
     elif rule == 'theorem':
         args = sp['arg']
+    elif rule == 'variable':
+        v = VARS[sp['arg']]
+        args = (v[1], S.to_repo_type(v[2]))
     th = mk_thm(sp['th']) if sp.get('th') else None
     it = ProofItem(tuple(sp['id']), rule, args=args, prevs=[tuple(p) for p in sp.get('prevs', [])], th=th)
     if sp.get('sub') is not None:
@@ -211,9 +236,69 @@ def seq_key(sh):
     return frozenset(S.alpha(h) for h in sh[0]), S.alpha(sh[1])
 
 
+NONCITING = ('variable', 'theorem', 'subproof', 'vf_gap', 'assume')
+
+
+def item_yield(ev, events):
+    """L6 reference: what a non-citing ('bookkeeping') item really produces, as (hyps, prop) on alpha-normal shadows;
+    None = produces no sequent; 'n/a' = no reference."""
+    rule, obj = ev['rule'], ev['obj']
+    if rule == 'variable':
+        nm, T = obj.args
+        return frozenset(), S.alpha(var_decl(('var', nm, S.ty_shadow(T))))
+    if rule == 'assume':
+        a = S.alpha(S.tm_shadow(obj.args))
+        return frozenset([a]), a
+    if rule == 'vf_gap':
+        return frozenset(), S.alpha(S.tm_shadow(obj.args))
+    if rule == 'theorem':
+        from kernel import theory
+        try:
+            return seq_key(S.thm_shadow(theory.thy.get_theorem(obj.args)))
+        except Exception:
+            return None
+    if rule == 'subproof':
+        kids = [e for e in events if e['parent'] is ev]
+        if not kids or not kids[-1]['ok'] or kids[-1].get('final') is None:
+            return None
+        return seq_key(kids[-1]['final'])
+    return 'n/a'
+
+
+def judge_items(ctx, events):
+    """L6: every accepted non-citing item (declaration, assumption, theorem copy, block, trusted macro) records exactly
+    what its rule produces - up to extra hypotheses - whatever sequent the proof text stated for it."""
+    viol = []
+    for ev in events:
+        if not ev['ok'] or ev['rule'] not in NONCITING:
+            continue
+        if ev['compute_only'] and ev['stated'] is not None:
+            continue
+        y = item_yield(ev, events)
+        if y == 'n/a':
+            continue
+        ctx.count('L6_item_yields_checked')
+        ctx.count('L6_item_yields_checked:' + ev['rule'])
+        if ev['stated'] is not None:
+            ctx.count('L6_items_with_stated_sequent:' + ev['rule'])
+        fin = seq_key(ev['final']) if ev.get('final') is not None else None
+        if fin is None:
+            continue
+        if y is None:
+            viol.append(('L6:%s-item-records-a-sequent-though-it-produces-none' % ev['rule'],
+                         'item id=%s rule %s was accepted with recorded sequent %s |- %s but the rule produces no sequent here'
+                         % (ev['id'], ev['rule'], ', '.join(S.tm_str(h) for h in ev['final'][0]), S.tm_str(ev['final'][1]))))
+        elif not (y[1] == fin[1] and y[0] <= fin[0]):
+            viol.append(('L6:stated-sequent-of-%s-item-accepted-unchecked' % ev['rule'],
+                         'item id=%s rule %s was accepted with recorded sequent %s |- %s, which is not what the rule produces (%s)'
+                         % (ev['id'], ev['rule'], ', '.join(S.tm_str(h) for h in ev['final'][0]), S.tm_str(ev['final'][1]),
+                            'stated in the proof text' if ev['stated'] is not None else 'filled in by the checker')))
+    return viol
+
+
 def judge(ctx, spec, mode, result, rpt, events, find_calls):
     """oracles over the log of an accepted proof.  result: Thm or None."""
-    viol = []
+    viol = judge_items(ctx, events)
     by_obj = {}
     for ev in events:
         by_obj.setdefault(id(ev['obj']), []).append(ev)
@@ -379,6 +464,95 @@ def nested_specs():
                             {'rule': 'substitution', 'prevs': [cite_inner2], 'id': (1, 1)}]
                     yield [{'rule': 'subproof', 'sub': blk0, 'id': (0,)}, {'rule': 'subproof', 'sub': blk1, 'id': (1,)},
                            {'rule': 'substitution', 'prevs': [cite_top], 'id': (2,)}]
+
+
+def stated_producers():
+    """non-citing items x what the proof text states for them: nothing, what the rule produces, that plus a spare
+    hypothesis, and foreign sequents (other propositions, falsity, the declaration of ANOTHER variable, ...)"""
+    foreign = ['|-B', '|-A', '|-A->B', '|-false', 'A|-B', 'A,A->B|-B', 'A|-A', '|-true']
+    out = []
+    for v in ('A', 'B', 'f'):
+        honest = '|-_VAR ' + v
+        other = ['|-_VAR B', 'A|-_VAR B'] if v != 'B' else ['|-_VAR A', '|-_VAR f']
+        for st in [None, honest] + (['A|-_VAR A'] if v == 'A' else []) + other + foreign:
+            out.append(({'rule': 'variable', 'arg': v, 'th': st}, 'none' if st is None else 'own' if st in (honest, 'A|-_VAR A') else 'foreign'))
+    for a, own in (('A', ['A|-A', 'B,A|-A']), ('B', ['B|-B', 'A,B|-B'])):
+        for st in [None] + own + ['|-' + a, '|-A->B', '|-false', 'A|-B', '|-_VAR ' + a, '|-true']:
+            if st == 'A|-B' and a == 'B':
+                st = 'A|-A'
+            out.append(({'rule': 'assume', 'arg': a, 'th': st}, 'none' if st is None else 'own' if st in own else 'foreign'))
+    for st in [None, '|-true', 'A|-true', '|-B', '|-A->B', '|-false', 'A|-A', '|-_VAR A']:
+        out.append(({'rule': 'theorem', 'arg': 'trueI', 'th': st}, 'none' if st is None else 'own' if 'true' in st else 'foreign'))
+    for st in [None, '|-A->B', '|-false', '|-true']:
+        out.append(({'rule': 'theorem', 'arg': 'conjI', 'th': st}, 'none' if st is None else 'foreign'))
+    for inner in ({'rule': 'assume', 'arg': 'A'}, {'rule': 'variable', 'arg': 'A'}, {'rule': 'theorem', 'arg': 'trueI'}):
+        own = {'assume': ['A|-A', 'B,A|-A'], 'variable': ['|-_VAR A', 'A|-_VAR A'], 'theorem': ['|-true', 'A|-true']}[inner['rule']]
+        for st in [None] + own + ['|-A', '|-B', '|-A->B', '|-false', '|-_VAR B']:
+            out.append(({'rule': 'subproof', 'sub': [dict(inner, id=(0,))], 'th': st}, 'none' if st is None else 'own' if st in own else 'foreign'))
+    for st in (None, '|-B', 'A|-B', '|-A', '|-false'):
+        out.append(({'rule': 'vf_gap', 'arg': 'B', 'th': st}, 'none' if st is None else 'own' if st in ('|-B', 'A|-B') else 'foreign'))
+    return out
+
+
+def reid(item, pid):
+    """the item placed at id pid (ids of a block inside it follow)"""
+    it = dict(item, id=pid)
+    if it.get('sub') is not None:
+        it['sub'] = [reid(s, pid + (k,)) for k, s in enumerate(it['sub'])]
+    return it
+
+
+def stated_specs():
+    """W-STATED: each producer alone, cited by every kind of consumer, after a preamble, as the last line of a block,
+    cited inside a block, at depth two, and as the cited conclusion of a block."""
+    for p, cls in stated_producers():
+        P = lambda pid: reid(p, pid)
+        yield 'alone', cls, p, [P((0,))]
+        yield 'cited-by-substitution', cls, p, [P((0,)), {'rule': 'substitution', 'prevs': [(0,)], 'id': (1,)}]
+        yield 'cited-as-implication', cls, p, [P((0,)), {'rule': 'assume', 'arg': 'A', 'id': (1,)},
+                                                {'rule': 'implies_elim', 'prevs': [(0,), (1,)], 'id': (2,)}]
+        yield 'cited-as-antecedent', cls, p, [{'rule': 'assume', 'arg': 'A->B', 'id': (0,)}, P((1,)),
+                                               {'rule': 'implies_elim', 'prevs': [(0,), (1,)], 'id': (2,)}]
+        yield 'cited-by-implies_intr', cls, p, [P((0,)), {'rule': 'implies_intr', 'arg': 'A', 'prevs': [(0,)], 'id': (1,)}]
+        yield 'last-of-block', cls, p, [{'rule': 'subproof', 'sub': [P((0, 0))], 'id': (0,)}]
+        yield 'block-conclusion-cited', cls, p, [{'rule': 'subproof', 'sub': [P((0, 0))], 'id': (0,)},
+                                                  {'rule': 'substitution', 'prevs': [(0,)], 'id': (1,)}]
+        yield 'cited-inside-block', cls, p, [{'rule': 'subproof', 'id': (0,), 'sub': [
+            P((0, 0)), {'rule': 'assume', 'arg': 'A', 'id': (0, 1)}, {'rule': 'implies_elim', 'prevs': [(0, 0), (0, 1)], 'id': (0, 2)}]}]
+        yield 'outer-item-cited-from-block', cls, p, [P((0,)), {'rule': 'subproof', 'id': (1,), 'sub': [
+            {'rule': 'substitution', 'prevs': [(0,)], 'id': (1, 0)}]}]
+        yield 'depth-two', cls, p, [{'rule': 'subproof', 'id': (0,), 'sub': [
+            {'rule': 'subproof', 'id': (0, 0), 'sub': [P((0, 0, 0))]}, {'rule': 'substitution', 'prevs': [(0, 0)], 'id': (0, 1)}]}]
+
+
+def stated_ext_case(ctx, producer, cls, claim):
+    """the stated theorem `claim` with a one-line 'proof' that is a non-citing item stating that very claim"""
+    from kernel import theory, extension
+    spec = [reid(producer, (0,))]
+    prf = mk_proof(spec)
+    old = theory.thy
+    theory.thy = copy.copy(old)
+    name = 'vf_ext_thm'
+    LOG.events, LOG.stack = [], []
+    LOG.active = True
+    try:
+        try:
+            rep = theory.thy.checked_extend([extension.Theorem(name, mk_thm(claim), prf)])
+            ok = True
+        except Exception as e:
+            ok = False
+            ctx.count('stated_ext_refused:' + type(e).__name__)
+        finally:
+            LOG.active = False
+        ctx.count('stated_ext_cases')
+        if ok and theory.thy.has_theorem(name) and not any(n == name for n, _ in rep.get_axioms()):
+            ctx.count('stated_ext_admitted_as_proved')
+            for mech, desc in judge_items(ctx, LOG.events):
+                ctx.violation('EXT:' + mech, 'checked_extend installed %s as proved from a one-line proof: %s' % (claim, desc),
+                              {'kind': 'stated', 'stated': claim, 'spec': spec, 'via': 'checked_extend'})
+    finally:
+        theory.thy = old
+    ctx.case(('stated-ext', claim, repr(spec)), nontrivial=True)
 
 
 def rand_spec(rng):
@@ -698,6 +872,19 @@ def run_shard(ctx, spec):
         for k, sp in enumerate(nested_specs()):
             do_spec(ctx, sp, 'nested', sample=(k == 5))
         ctx.count('exhaustive_nested_done')
+    elif kind == 'stated':
+        for k, (shape, cls, p, sp) in enumerate(stated_specs()):
+            ctx.count('stated_family_cases')
+            ctx.count('stated_family:%s:%s' % (p['rule'], cls))
+            ctx.count('stated_family_shape:' + shape)
+            before = ctx.counters['accepted']
+            do_spec(ctx, sp, 'stated', sample=(k % 401 == 7))
+            if ctx.counters['accepted'] > before:
+                ctx.count('stated_family_accepted:%s:%s' % (p['rule'], cls))
+        for p, cls in stated_producers():
+            if p.get('th'):
+                stated_ext_case(ctx, p, cls, p['th'])
+        ctx.count('stated_family_done')
     elif kind == 'exh3_sample':
         ids = [(i,) for i in range(3)]
         opts = item_options(3, ids)
